@@ -22,6 +22,8 @@ pub struct Ipv4Header {
     checksum: u16,
     source: Ipv4Address,
     destination: Ipv4Address,
+    // the bytes between the fixed header and the payload, as captured
+    options: Vec<u8>,
 }
 
 #[derive(Debug)]
@@ -72,17 +74,16 @@ impl Ipv4Packet {
         let checksum = ((rawdata[off + 10] as u16) << 8) | (rawdata[off + 11] as u16);
         let source = Ipv4Address::from_bytes(&rawdata[(off + 12)..(off + 16)]);
         let destination = Ipv4Address::from_bytes(&rawdata[(off + 16)..(off + 20)]);
-        // Handle ipv4 options
-        let mut options = Vec::new();
-        if ihl > 5 {
-            let mut i: usize = 20;
-            while i < ihl as usize * 4 {
-                options.push(rawdata[off + i]);
-                i += 1;
-            }
+        // The header is never shorter than its fixed part; an IHL below 5 is
+        // malformed and the payload is then taken to start after the fixed part
+        let header_len = (ihl as usize * 4).max(IPV4_HEADER_SIZE);
+        if rawdata.len() < off + header_len {
+            return Err(PacketError::InvalidLength(rawdata.len()));
         }
+        // Handle ipv4 options
+        let options = rawdata[off + IPV4_HEADER_SIZE..off + header_len].to_vec();
         //  offset of payload
-        let offset = off + ihl as usize * 4;
+        let offset = off + header_len;
 
         let header = Ipv4Header {
             version,
@@ -98,6 +99,7 @@ impl Ipv4Packet {
             checksum,
             source,
             destination,
+            options,
         };
         Ok(Self {
             header: RefCell::new(header),
@@ -325,6 +327,7 @@ impl From<&Ipv4Header> for Vec<u8> {
         bytes.extend_from_slice(&b);
         let b: Vec<u8> = (&hdr.destination).into();
         bytes.extend_from_slice(&b);
+        bytes.extend_from_slice(&hdr.options);
         bytes
     }
 }
